@@ -78,3 +78,68 @@ Proof.
     try discriminate; try reflexivity; try (repeat split; reflexivity);
     destruct H as (A & B & C & D); discriminate.
 Qed.
+
+(** Merges *)
+
+Lemma first_stop_source : forall before after c,
+  checkb c = true -> first_stop (source before after c) = AFail.
+Proof.
+  intros before after c Hc. unfold source. rewrite Hc.
+  induction before as [|b IH]; [reflexivity|exact IH].
+Qed.
+
+Lemma at_end_first_stop : forall l, at_end l = true -> first_stop l = AEnd.
+Proof. intros [|[d| |] r] H; try reflexivity; discriminate. Qed.
+
+Lemma first_stop_pop : forall ins i j d r,
+  ins i = AItem d :: r -> first_stop (pop ins i j) = first_stop (ins j).
+Proof.
+  intros ins i j d r H. unfold pop. destruct (Nat.eqb j i) eqn:E; [|reflexivity].
+  apply Nat.eqb_eq in E. subst j. now rewrite H.
+Qed.
+
+(* a merge that ended without error although none of its first k inputs has
+   anything more to give met no failing input among them: whatever the order
+   in which the inputs were refilled *)
+Theorem merge_done_all_ended : forall sched ins n alt m alt' rest k,
+  merge_run false sched ins n alt = (Done m alt', rest) ->
+  (forall j, (j < k)%nat -> at_end (rest j) = true) ->
+  forall j, (j < k)%nat -> first_stop (ins j) = AEnd.
+Proof.
+  induction sched as [|i sched IH]; intros ins n alt m alt' rest k Hrun Hend j Hj.
+  - cbn in Hrun. injection Hrun as _ _ <-. now apply at_end_first_stop, Hend.
+  - cbn [merge_run] in Hrun. destruct (ins i) as [|[d| |] r] eqn:E.
+    + now apply (IH _ _ _ _ _ _ _ Hrun Hend).
+    + rewrite <- (first_stop_pop ins i j d r E). now apply (IH _ _ _ _ _ _ _ Hrun Hend).
+    + now apply (IH _ _ _ _ _ _ _ Hrun Hend).
+    + discriminate.
+Qed.
+
+(* hence: one input whose altered page is fetched by a checking loader, and a
+   merge that went on until no input had anything more to give, ends with
+   the error *)
+Theorem merge_reports_checked : forall sched ins n alt o rest k j before after c,
+  merge_run false sched ins n alt = (o, rest) ->
+  (forall j, (j < k)%nat -> at_end (rest j) = true) ->
+  (j < k)%nat -> ins j = source before after c -> checkb c = true ->
+  exists m a, o = Reported m a.
+Proof.
+  intros sched ins n alt o rest k j before after c Hrun Hend Hj Hsrc Hc.
+  destruct o as [m a|m a]; [|now exists m, a].
+  pose proof (merge_done_all_ended _ _ _ _ _ _ _ _ Hrun Hend j Hj) as H.
+  rewrite Hsrc, first_stop_source in H by exact Hc. discriminate.
+Qed.
+
+(** Windows *)
+
+(* wherever the windows end relative to the altered page, the read ends with
+   the error after exactly the intact rows in front of the page *)
+Theorem windows_report_checked : forall sizes before after c i rem n,
+  checkb c = true ->
+  read_windows true sizes (source before after c) i rem n false = Reported (before + n)%nat false.
+Proof.
+  intros sizes before after c i rem n Hc. unfold source. rewrite Hc.
+  revert i rem n. induction before as [|b IH]; intros i rem n.
+  - cbn. now destruct rem.
+  - cbn [repeat app read_windows]. cbn [orb]. destruct rem as [|k]; rewrite IH; f_equal; lia.
+Qed.
